@@ -237,7 +237,7 @@ def run(ctx):
     r = tlc.run("TdJob", cfg, mode="emit", timeout=600)
     ctx.add_tlc(r, "TdJob argument cases (mirror of the code)")
     cfg = tlc.make_cfg(constants=dict(MaxQ=3, MaxN=3, MaxFree=2, Floor=True), spec="Spec", invariants=["OnePerStep", "FinalTime"], properties=["Terminates"])
-    r2 = tlc.run("TdJob", cfg, timeout=600)
+    r2 = tlc.run("TdJob", cfg, vacuity=True, timeout=600)
     ctx.add_tlc(r2, "TdJob documented meaning (FinalTime)")
     if r2["violated"]:
         ctx.violation(f"C10:spec:TdJob:{r2['violated']}", "TdJob violates " + r2["violated"], {"tlc": r2.get("error_text", "")[:1500]})
